@@ -53,6 +53,17 @@ pub fn gen_stat_spec(rng: &mut Rng, is_f64: bool) -> Option<(ProblemSpec, &'stat
     // statistics are equivariant under such scalings; conditioning is judged after column scaling.
     if rng.chance(0.25) {
         // f32 has only ~1e±38 of range and the statistics square the units: keep its scalings modest
+        if rng.chance(0.35) {
+            // observations in tiny units with the usual 1/sigma weights (which are then huge): the
+            // weighted problem is of unit scale, the linear coefficients and their variances are not
+            let span = if is_f64 { 60.0 } else { 23.0 };
+            let f = 10f64.powf(-rng.range(3.0, span).round());
+            spec.y = spec.y.scale(f);
+            let n = spec.y.r;
+            let w0 = spec.w.clone().unwrap_or_else(|| vec![1.0; n]);
+            spec.w = Some(w0.iter().map(|v| v / f).collect());
+            return Some((spec, "tiny units with compensating 1/sigma weights"));
+        }
         let span = if is_f64 { 19.0 } else { 5.0 };
         let f = 10f64.powf(rng.range(-span, span).round());
         spec.y = spec.y.scale(f);
@@ -156,4 +167,18 @@ pub fn scaled_normal_matrix(h: &Mat) -> Option<(Vec<f64>, Mat, f64)> {
         return None;
     }
     Some((d, g, lmax / lmin))
+}
+
+/// The oracle's own covariance sigma^2 (H^T H)^-1 in f64, through the column-equilibrated normal
+/// matrix: returns (D, V, lambda) with (H^T H)^-1 = D^-1 V diag(1/lambda) V^T D^-1.
+pub fn oracle_quadratic_form(d: &[f64], g: &Mat, j_row: &[f64]) -> f64 {
+    // j^T (H^T H)^-1 j = | Lambda^-1/2 V^T D^-1 j |^2
+    let (ev, v) = crate::la::sym_eig(g);
+    let z: Vec<f64> = j_row.iter().zip(d).map(|(a, b)| a / b).collect();
+    let mut s = 0.0;
+    for k in 0..ev.len() {
+        let proj = crate::la::dot(v.col(k), &z);
+        s += proj * proj / ev[k];
+    }
+    s
 }
